@@ -150,6 +150,27 @@ def h_pow_alias(ctx, D, P):
     ctx.eq(plain(x.data), X, 'operand unchanged')
 
 
+def h_ipow(ctx, r, D, P):
+    """x **= r (python int, float, numpy integer, negative) equals x ** r, also on a view of a buffer,
+    and a second object on the same data sees the new value"""
+    from fractions import Fraction
+    algopy = symx.load_algopy()
+    rr = {'3': 3, '5': 5, '2': 2, '-1': -1, '2.5': 2.5, 'int64(4)': np.int64(4), '1': 1, '0': 0}[r]
+    dom = 'pos' if r == '2.5' else ('nonzero' if r == '-1' else 'any')
+    X = O.make_input(ctx, O.Arg('utpm', (2,), dom), 'x', D, P)
+    ref = plain((mk_utpm(ctx, algopy, X) ** rr).data)
+    x = mk_utpm(ctx, algopy, X)
+    x **= rr
+    ctx.eq(plain(x.data), ref, 'x **= %s == x ** %s' % (r, r))
+    B = O.make_input(ctx, O.Arg('utpm', (3,), dom), 'b', D, P)
+    buf = mk_utpm(ctx, algopy, B)
+    head = buf[0:2]
+    refh = plain((mk_utpm(ctx, algopy, B[:, :, 0:2]) ** rr).data)
+    head **= rr
+    ctx.eq(plain(buf.data)[:, :, 0:2], refh, 'view **= %s writes through to the buffer' % r)
+    ctx.eq(plain(buf.data)[:, :, 2], B[:, :, 2], 'entries outside the view unchanged')
+
+
 def h_floordiv(ctx, D, P):
     """x // y (L'Hospital division, zero leading coefficients) leaves both operands alone"""
     algopy = symx.load_algopy()
@@ -203,6 +224,15 @@ def h_tracer_inputs(ctx, pname, D, P):
         if pullback_guard(ctx, algopy, cg, [ybar]):
             ctx.eq(plain(ybar.data), YB, 'seed unchanged by a second reverse sweep')
             ctx.eq(plain(cg.independentFunctionList[0].xbar.data), xb1, 'second sweep with the same seed object gives the same adjoint')
+    # a third evaluation with yet another input object: the inputs handed in EARLIER (same type and
+    # shape as the recorded value) are still what the caller put into them
+    X3 = O.make_input(ctx, arg, 'w', D, P) if prog.dom == 'any' else X
+    x3 = O.wrap(ctx, algopy, arg, X3)
+    cg.pushforward([x3])
+    cg.pushforward([O.wrap(ctx, algopy, arg, X3)])
+    ctx.eq(plain(x.data), X, 'recording input unchanged by later evaluations')
+    ctx.eq(plain(x2.data), X2, 'input of the first re-evaluation unchanged by later evaluations')
+    ctx.eq(plain(x3.data), X3, 'input of the second re-evaluation unchanged by the third')
 
 
 def h_two_outputs(ctx, D, P):
@@ -258,6 +288,8 @@ def units(tier, seed):
         for form in ('row op= row[::-1]', 'window op= overlapping window', 'column op= other column', 'reshaped op= its transpose'):
             add('alias/views of one parent/%s/%s' % (form, opn), 'h_alias_views', opn=opn, form=form, D=3, P=2)
     add('alias/pow,dot,outer', 'h_pow_alias', D=D, P=P)
+    for r in ('3', '5', '2', '-1', '2.5', 'int64(4)', '1', '0'):
+        add('alias/x **= %s/D3,P2' % r, 'h_ipow', r=r, D=3, P=2)
     for sh in (1, 2, -1, -3):
         out.append(Unit('C14/alias/x.shift(%d, out=x)/D4,P2' % sh, 'symx.props.c17', 'h_shift', {'D': 4, 'P': 2, 's': sh}, dict(opts)))
     add('floordiv zero leading coefficients/D3,P1', 'h_floordiv', D=3, P=1)
@@ -265,6 +297,8 @@ def units(tier, seed):
     for pn in ['x*x', 'x/(1+x*x)', 'exp', 'buffer', 'buffer-overwrite', 'tan(x)*x', 'dot(mat,mat)', 'inv', 'sum', 'x[1:]*x[:-1]']:
         add('tracer inputs and seeds/%s' % pn, 'h_tracer_inputs', pname=pn, D=2, P=2)
     add('tracer two dependent outputs', 'h_two_outputs', D=2, P=2)
+    for drv in ('gradient', 'jacobian', 'hessian', 'vec_jac'):
+        out.append(Unit('C14/program writing into its independent variable/%s leaves the caller\'s array unchanged' % drv, 'symx.props.c04', 'h_input_kept', {'driver': drv}, {'property': PROP, 'float_tol': 5e-5}))
     # factorisations: the C08 harnesses end with `input unchanged`; here with C- and Fortran-ordered
     # coefficient matrices (LAPACK wrappers called with overwrite_a=True destroy the latter)
     for nm, func, kw in [('qr/3x2', 'h_qr', dict(M=3, N=2, D=2, P=1)), ('qr/2x2', 'h_qr', dict(M=2, N=2, D=2, P=2)),
